@@ -756,8 +756,8 @@ impl ReCompiler {
                         quantifier_type = Some('*');
                     }
                     Some('{') => {
-                        // bounds are meaningless
-                        quantifier_type = Some('*')
+                        // the lower bound is meaningless, the upper one is not
+                        self.bracket_min = 0;
                     }
                     _ => {}
                 }
